@@ -11,6 +11,7 @@
 #include <cstring>
 #include <filesystem>
 #include <fstream>
+#include <map>
 #include <optional>
 
 #include "common.hpp"
@@ -34,6 +35,7 @@ struct world
     std::vector<std::optional<dj::track>> th{std::nullopt};
     sqlite3* conn = nullptr;
     bool raw = false, rep = false, sweep = false, stale_get = false, dead = false, want_stmts = false, blobs = false, locks = false;
+    std::map<std::string, uint64_t> blob_seen;   // (track id, column) -> hash of the stored bytes last logged (C11: stored blobs)
 };
 std::string g_tmp_root;
 int g_dir_counter = 0;
@@ -207,6 +209,100 @@ json loop_bytes(const std::optional<dj::loop>& c)
                           {"a", c->color.a}, {"r", c->color.r}, {"g", c->color.g}, {"b", c->color.b}}});
 }
 
+// C11, "every stored performance blob decodes" as an independent reader judges it: every performance-data column of every track,
+// un-framed with plain zlib (4-byte big-endian length prefix = length of the inflated payload, stream complete), handed to TLC
+// for the structural grammar of its layout (spec/BlobWF.tla).  A column is logged when its bytes differ from what was logged last
+// (every stored version of every blob is judged once).  Payloads above 4 KiB (waveforms, long grids) are logged as their first 64
+// bytes, their length and - beat data - the eight bytes of the second grid's count.
+json stored_blobs(world& w)
+{
+    struct colspec
+    {
+        const char* col;
+        const char* kind;
+        bool compressed;
+    };
+    static const colspec v2cols[] = {{"trackData", "track_data2", true}, {"beatData", "beat_data2", true}, {"quickCues", "quick_cues2", true},
+                                     {"loops", "loops2", false}, {"overviewWaveFormData", "overview2", true}};
+    static const colspec v1cols[] = {{"trackData", "track_data1", true}, {"highResolutionWaveFormData", "hires1", true},
+                                     {"overviewWaveFormData", "overview1", true}, {"beatData", "beat_data1", true},
+                                     {"quickCues", "quick_cues1", true}, {"loops", "loops1", false}};
+    const colspec* cols = w.v2 ? v2cols : v1cols;
+    size_t ncols = w.v2 ? 5 : 6;
+    std::string sql = "SELECT id";
+    for (size_t c = 0; c < ncols; ++c)
+        sql += std::string(", ") + cols[c].col;
+    sql += w.v2 ? " FROM Track ORDER BY id" : " FROM PerformanceData ORDER BY id";
+    json out = json::array();
+    vh::raw_reader rr{w.conn};
+    rr.query(sql, [&](sqlite3_stmt* st) {
+        int64_t id = sqlite3_column_int64(st, 0);
+        for (size_t c = 0; c < ncols; ++c)
+        {
+            const unsigned char* p = (const unsigned char*)sqlite3_column_blob(st, (int)c + 1);
+            int n = sqlite3_column_bytes(st, (int)c + 1);
+            uint64_t h = 1469598103934665603ULL;
+            vh::raw_reader::fnv(h, (const char*)&n, sizeof n);
+            if (p && n > 0)
+                vh::raw_reader::fnv(h, (const char*)p, (size_t)n);
+            std::string key = std::to_string(id) + "/" + cols[c].col;
+            auto it = w.blob_seen.find(key);
+            if (it != w.blob_seen.end() && it->second == h)
+                continue;
+            w.blob_seen[key] = h;
+            json e = {{"id", id}, {"col", cols[c].col}, {"kind", cols[c].kind}};
+            if (!p || n == 0)
+            {
+                e["st"] = "absent";   // NULL or zero-length: no blob stored
+                out.push_back(std::move(e));
+                continue;
+            }
+            json pl = payload_of(p, n, cols[c].compressed);
+            if (!pl.at("ok").get<bool>())
+            {
+                e["st"] = "bad-frame";
+                out.push_back(std::move(e));
+                continue;
+            }
+            auto& bytes = pl.at("p");
+            size_t len = bytes.size();
+            e["st"] = "ok";
+            e["n"] = (int64_t)len;
+            json c2 = json::array();
+            if ((std::string(cols[c].kind) == "beat_data1" || std::string(cols[c].kind) == "beat_data2") && len >= 33)
+            {
+                // position of the second grid's count: 26 + 24 * (first count), when that count is sane
+                uint64_t n1 = 0;
+                for (int k = 0; k < 8; ++k)
+                    n1 = (n1 << 8) | (uint64_t)bytes[17 + k].get<int>();
+                if (n1 <= (len - 33) / 24)
+                    for (int k = 0; k < 8; ++k)
+                        c2.push_back(bytes[25 + 24 * n1 + k]);
+            }
+            while (c2.size() < 8)
+                c2.push_back(255);   // (no second count where the first one does not fit: reads as "too large")
+            e["c2"] = c2;
+            if (len > 4096)
+            {
+                json head = json::array();
+                for (size_t k = 0; k < 64; ++k)
+                    head.push_back(bytes[k]);
+                e["p"] = head;
+            }
+            else
+            {
+                // (padding: the grammar may look one label-length byte beyond a truncated payload before it rejects it)
+                json padded = bytes;
+                for (int k = 0; k < 40; ++k)
+                    padded.push_back(0);
+                e["p"] = padded;
+            }
+            out.push_back(std::move(e));
+        }
+    });
+    return out;
+}
+
 // C11 at track level: the derived columns of every stored track row as an independent reader finds them (file name,
 // extension / file type, origin ids), plus SQLite's own checks and verify().  Strings as the same tokens the getters use.
 json raw_tracks(world& w)
@@ -237,6 +333,7 @@ json raw_tracks(world& w)
         });
     }
     json out = {{"rows", rows}};
+    out["sb"] = stored_blobs(w);
     out["integrity"] = rr.text("PRAGMA integrity_check");
     int nfk = 0;
     json fkl = json::array();
